@@ -16,6 +16,9 @@ HARNESSES = ['kmer_bincode_dna_k1', 'kmer_bincode_dna_k8', 'kmer_bincode_dna_k32
              'kmer_bincode_dna_k32_u64', 'kmer_bincode_dna_k64_u128', 'kmer_bincode_iupac_k32_u128']
 
 
+THOROUGH = ['kmer_bincode_amino_k10', 'kmer_bincode_text_k8', 'kmer_bincode_masked_iupac_k12', 'kmer_bincode_dna_k5_u64', 'kmer_bincode_amino_k21_u128', 'kmer_bincode_dna_k33_u128']
+
+
 def run(pid, tier, seed, repo='/repo'):
     """returns (failures, undecided, evidence_dict, obligations, discharged)"""
     failures, undecided = [], []
@@ -49,10 +52,11 @@ def run(pid, tier, seed, repo='/repo'):
                                  what='serialization round trip changes the value', input=f, verifier_output=f))
     if binp is None:
         return failures, undecided, ev, obligations, discharged
-    res, log, wall, cmd = kani_run.run_kani(HARNESSES, 'debug', repo, jobs=8, timeout=900, crate='c18', prefix='harness::', target='target-kani-c18')
+    hs = HARNESSES + (THOROUGH if tier == 'thorough' else [])
+    res, log, wall, cmd = kani_run.run_kani(hs, 'debug', repo, jobs=8, timeout=900, crate='c18', prefix='harness::', target='target-kani-c18')
     ev['kani_cmd'] = cmd
     ev['kani_wall_s'] = round(wall, 1)
-    for h in HARNESSES:
+    for h in hs:
         v = res.get(h) or dict(status='unknown')
         ev['kani'].append(dict(harness=h, status=v['status'], checks=v.get('checks'), covers=v.get('covers'), time_s=v.get('time_s'),
                                label='complete: loop-free harness over the full storage domain (all 2^64 / 2^128 values)'))
